@@ -14,8 +14,9 @@ class C22(Check):
     profiles = ['QF_UF', 'QF_UF', 'QF_LRA', 'QF_LRA', 'QF_LIA', 'QF_RDL', 'QF_IDL', 'QF_AX', 'QF_UFLRA', 'QF_UFLIA', 'QF_ALIA', 'QF_UFIDL']
     technique = 'deterministic simulation of the SAT-engine/theory interface: seeded assert/check/backtrack sequences against the real THandler, R-truth oracle per step'
     rule = ('atom pool produced by the real preprocessing + CNF pipeline (<= 24 atoms); the simulator plays the SAT engine and issues <= 200 seeded assert / check(incomplete|complete) / '
-            'backtrack operations on the real THandler (LA, UF, array, IDL, RDL, UFLA handlers); after every step: an UNSAT verdict needs R-truth(trail)=unsat and a conflict made of '
-            'negations of trail literals; a complete-check SAT with no pending split in LRA/EUF/RDL/IDL needs R-truth(trail)=sat; non-trivial = a backtrack followed by an assertion '
+            'backtrack operations on the real THandler (LA, UF, array, IDL, RDL, UFLA handlers), adopting theory deductions and asking for their reasons after a temporary '
+            'backtrack as conflict analysis does; after every step: an UNSAT verdict needs R-truth(trail)=unsat and a conflict made of negations of trail literals that is '
+            'theory-unsatisfiable by itself; a reason cites only literals asserted before the propagated one and implies it; a complete-check SAT with no pending split in LRA/EUF/RDL/IDL needs R-truth(trail)=sat; non-trivial = a backtrack followed by an assertion '
             'and a check, with both verdicts present; distinct = hash of (formulas, operation list)')
 
     def gen_case(self, seed, idx, tier):
@@ -98,6 +99,16 @@ class C22(Check):
                     res['violations'].append({'cls': 'stale-literal-in-reason', 'sig': {'logic': case['logic']},
                                               'detail': {'step': e['i'], 'literal': lits([e['lit']])[0], 'prefix': lits(e['prefix']), 'reason': e['reason']}})
                     break
+                if e.get('reason') and 0 not in e['reason'] and not res['violations']:
+                    # the cited literals (all on the trail before the propagated one) must imply it
+                    try:
+                        t = ctx.refs.truth(prelude, lits([-x for x in e['reason']]))
+                    except RefError:
+                        t = None
+                    if t == 'sat':
+                        res['violations'].append({'cls': 'reason-does-not-imply-literal', 'sig': {'logic': case['logic']},
+                                                  'detail': {'step': e['i'], 'literal': lits([e['lit']])[0], 'reason': lits([-x for x in e['reason'][1:]]), 'refs': ctx.refs.last_raw}})
+                        break
                 continue
             if e.get('ev') != 't-step':
                 continue
@@ -131,6 +142,16 @@ class C22(Check):
                     elif t == 'sat':
                         res['violations'].append({'cls': 'spurious-inconsistency', 'sig': {'logic': case['logic'], 'op': e['op']}, 'detail': {'step': e['i'], 'trail': lits(e['trail']), 'refs': ctx.refs.last_raw}})
                         break
+                    # the inconsistency the solver *reports* is the conflict set (a subset of the trail): it must be
+                    # theory-unsatisfiable by itself
+                    if e.get('conflict') and 0 not in e['conflict']:
+                        cset = lits([-x for x in e['conflict']])
+                        t = ctx.refs.truth(prelude, cset)
+                        if t is None:
+                            bump(res, 'unresolved')
+                        elif t == 'sat':
+                            res['violations'].append({'cls': 'reported-conflict-satisfiable', 'sig': {'logic': case['logic']}, 'detail': {'step': e['i'], 'conflict_set': cset, 'trail': lits(e['trail']), 'refs': ctx.refs.last_raw}})
+                            break
                 elif e['res'] == 'SAT' and e['op'] == 'check-complete':
                     bump(res, 'verdict:SAT')
                     verdicts.add('SAT')
